@@ -68,6 +68,86 @@ type wgPair struct {
 	w    wgRef
 	memo map[*ssa.Function][]string // the ways out a function leaves with the count (descriptions); nil = none
 	busy map[*ssa.Function]bool
+	// needs: the function starts a goroutine that releases the count by running a function it was handed as parameter
+	// #i: the count is released if that function always calls Done - decided at every call site
+	needs map[*ssa.Function]map[int]bool
+}
+
+// runsParameter: the go statement starts a function that runs, on every way to its end, a function value that the
+// spawning function received as its parameter #idx (`go body()`, or `go func() { body() }()`).
+func runsParameter(g *ssa.Go) (int, bool) {
+	fn := g.Parent()
+	paramIdx := func(v ssa.Value) (int, bool) {
+		for i, prm := range fn.Params {
+			if v == ssa.Value(prm) {
+				if _, isFunc := prm.Type().Underlying().(*types.Signature); isFunc {
+					return i, true
+				}
+			}
+		}
+		return 0, false
+	}
+	if idx, ok := paramIdx(g.Call.Value); ok && !g.Call.IsInvoke() {
+		return idx, true
+	}
+	mc, ok := g.Call.Value.(*ssa.MakeClosure)
+	if !ok {
+		return 0, false
+	}
+	body, ok := mc.Fn.(*ssa.Function)
+	if !ok || len(body.Blocks) == 0 {
+		return 0, false
+	}
+	for i, fv := range body.FreeVars {
+		if i >= len(mc.Bindings) {
+			break
+		}
+		bound := mc.Bindings[i]
+		if al, isAlloc := bound.(*ssa.Alloc); isAlloc && al.Referrers() != nil {
+			// captured by reference: the variable holds the parameter if that is all that is ever stored into it
+			var stored ssa.Value
+			n := 0
+			for _, r := range *al.Referrers() {
+				if st, isStore := r.(*ssa.Store); isStore && st.Addr == ssa.Value(al) {
+					stored = st.Val
+					n++
+				}
+			}
+			if n == 1 {
+				bound = stored
+			}
+		}
+		idx, isParam := paramIdx(bound)
+		if !isParam {
+			continue
+		}
+		// called in a block that dominates every return of the goroutine function
+		for _, b := range body.Blocks {
+			for _, in := range b.Instrs {
+				call, isCall := in.(*ssa.Call)
+				if !isCall || call.Call.IsInvoke() {
+					continue
+				}
+				callee := call.Call.Value
+				if ld, isLoad := callee.(*ssa.UnOp); isLoad && ld.Op == token.MUL {
+					callee = ld.X
+				}
+				if callee != ssa.Value(fv) {
+					continue
+				}
+				all := true
+				for _, r := range core.ReturnInstrs(body) {
+					if !(b == r.Block() || b.Dominates(r.Block())) {
+						all = false
+					}
+				}
+				if all {
+					return idx, true
+				}
+			}
+		}
+	}
+	return 0, false
 }
 
 // releases: the instruction releases a count of w.
@@ -76,11 +156,19 @@ func (p *wgPair) releases(in ssa.Instruction) bool {
 	if !ok {
 		return false
 	}
-	if _, isGo := in.(*ssa.Go); isGo {
+	if g, isGo := in.(*ssa.Go); isGo {
 		for _, tgt := range p.c.M.Callees(ci.Common()) {
 			if p.c.mustDone(tgt, p.w, 0) {
 				return true
 			}
+		}
+		if idx, ok := runsParameter(g); ok {
+			fn := g.Parent()
+			if p.needs[fn] == nil {
+				p.needs[fn] = map[int]bool{}
+			}
+			p.needs[fn][idx] = true
+			return true
 		}
 		return false
 	}
@@ -112,6 +200,27 @@ func (p *wgPair) adds(in ssa.Instruction) (what string, from []*ssa.BasicBlock, 
 	}
 	left := p.leavesWith(callee)
 	if len(left) == 0 {
+		// the callee counts a goroutine in that runs the function it is handed: that function has to release the count
+		var idxs []int
+		for idx := range p.needs[callee] {
+			idxs = append(idxs, idx)
+		}
+		sort.Ints(idxs)
+		for _, idx := range idxs {
+			if idx >= len(call.Call.Args) {
+				continue
+			}
+			var handed *ssa.Function
+			switch a := call.Call.Args[idx].(type) {
+			case *ssa.MakeClosure:
+				handed, _ = a.Fn.(*ssa.Function)
+			case *ssa.Function:
+				handed = a
+			}
+			if handed == nil || !p.c.mustDone(handed, p.w, 0) {
+				return "the call of " + callee.Name() + ", which counts in a goroutine that runs the function it is handed, with a function that does not always call Done", nil, true
+			}
+		}
 		return "", nil, false
 	}
 	what = "the call of " + callee.Name() + ", which leaves with the count (" + left[0] + ")"
@@ -261,11 +370,8 @@ func (p *wgPair) leaks(fn *ssa.Function) []wgLeak {
 					}
 					if _, isRet := in2.(*ssa.Return); isRet {
 						via := map[*ssa.BasicBlock]bool{}
-						for x := s.b; x != nil; x = parent[x] {
+						for x := s.b; x != nil && !via[x]; x = parent[x] {
 							via[x] = true
-							if parent[x] == x {
-								break
-							}
 						}
 						via[b] = true
 						out = append(out, wgLeak{what: what, pos: in.Pos(), ret: s.b, via: via})
@@ -340,7 +446,7 @@ func (c *Ctx) ruleWGPair(rule string) {
 	}
 	sort.Strings(names)
 	for _, name := range names {
-		p := &wgPair{c: c, w: groups[name], memo: map[*ssa.Function][]string{}, busy: map[*ssa.Function]bool{}}
+		p := &wgPair{c: c, w: groups[name], memo: map[*ssa.Function][]string{}, busy: map[*ssa.Function]bool{}, needs: map[*ssa.Function]map[int]bool{}}
 		// the functions to decide: those that add, and transitively the callers a count is handed to
 		todo := c.M.SortedFuncs(addFns[name])
 		done := map[*ssa.Function]bool{}
@@ -395,9 +501,11 @@ var _ = types.Typ
 // Otherwise the counts parsed before the switch are lost from the result. Dependence is data flow within the step
 // (operands, phis); the roles are found by shape (the parameter that an early way out hands back in each position).
 func (c *Ctx) ruleSumAll(rule string) {
-	var step *ssa.Function
+	// the steps of the fold: the functions of the units file that parse a count and hand the sums back (a step may be
+	// split into an entry and a worker: every part is examined, and "kept up to date" is decided over all of them)
+	var scalar, record []*ssa.Function
 	for _, fn := range c.unitFuncs() {
-		if fn.Signature.Results().Len() < 3 || core.ErrorResultIndex(fn.Signature) < 0 {
+		if core.ErrorResultIndex(fn.Signature) < 0 {
 			continue
 		}
 		parses := false
@@ -411,14 +519,162 @@ func (c *Ctx) ruleSumAll(rule string) {
 				}
 			}
 		}
-		if parses {
-			step = fn
+		if !parses {
+			continue
+		}
+		switch {
+		case sumsRecord(fn) != nil:
+			record = append(record, fn)
+		case fn.Signature.Results().Len() >= 4:
+			scalar = append(scalar, fn)
 		}
 	}
-	if step == nil {
+	if len(scalar) == 0 && len(record) == 0 {
 		c.R.Unresolved(rule, "the step of the unit parser's fold (a function that parses a count and returns the sums, the flag and an error)")
 		return
 	}
+	for _, fn := range record {
+		c.sumAllRecord(rule, fn)
+	}
+	// "the float sum is kept up to date in integer mode" is a fact about all the parts together
+	tracked := true
+	var parts []sumAllPart
+	for _, fn := range scalar {
+		part, ok := c.sumAllWays(rule, fn)
+		if !ok {
+			return
+		}
+		parts = append(parts, part)
+		for _, w := range part.ways {
+			if w.mayInt && !w.floatOK {
+				tracked = false
+			}
+		}
+	}
+	for _, part := range parts {
+		c.sumAllDecide(rule, part, tracked)
+	}
+}
+
+type sumAllWay struct {
+	r                         core.Ret
+	mayInt, mayFloat, wasInt  bool
+	intOK, floatOK, floatSeed bool
+	floatCount, floatPrev     bool
+}
+
+type sumAllPart struct {
+	step     *ssa.Function
+	ways     []sumAllWay
+	combines bool
+}
+
+// sumsRecord: the struct type in which fn receives and returns the sums (a parameter and a result of one named struct
+// type of the module with an integer, a float and a bool field), nil if it has none.
+func sumsRecord(fn *ssa.Function) *types.Named {
+	for i := 0; i < fn.Signature.Results().Len(); i++ {
+		named, ok := fn.Signature.Results().At(i).Type().(*types.Named)
+		if !ok {
+			continue
+		}
+		st, ok := named.Underlying().(*types.Struct)
+		if !ok {
+			continue
+		}
+		var hasInt, hasFloat, hasBool bool
+		for f := 0; f < st.NumFields(); f++ {
+			if bt, ok := st.Field(f).Type().Underlying().(*types.Basic); ok {
+				hasInt = hasInt || bt.Info()&types.IsInteger != 0
+				hasFloat = hasFloat || bt.Info()&types.IsFloat != 0
+				hasBool = hasBool || bt.Info()&types.IsBoolean != 0
+			}
+		}
+		if !hasInt || !hasFloat || !hasBool {
+			continue
+		}
+		for _, p := range fn.Params {
+			if types.Identical(p.Type(), named) {
+				return named
+			}
+		}
+	}
+	return nil
+}
+
+// sumAllRecord: the sums travel in a struct. Decided per numeric field, without regard to the order of the statements:
+// some store into the field, in the step, is computed from a parsed count and from the value the field held (a weaker
+// clause than the one for separate results: a count that is left out on one way only is not seen in this form).
+func (c *Ctx) sumAllRecord(rule string, step *ssa.Function) {
+	named := sumsRecord(step)
+	st := named.Underlying().(*types.Struct)
+	count := map[ssa.Value]bool{}
+	for _, b := range step.Blocks {
+		for _, in := range b.Instrs {
+			if call, ok := in.(*ssa.Call); ok {
+				switch core.StaticCalleeName(&call.Call) {
+				case "strconv.ParseInt", "strconv.ParseFloat":
+					count[call] = true
+				}
+			}
+		}
+	}
+	for changed := true; changed; {
+		changed = false
+		for _, b := range step.Blocks {
+			for _, in := range b.Instrs {
+				v, ok := in.(ssa.Value)
+				if !ok || count[v] {
+					continue
+				}
+				var ops []*ssa.Value
+				for _, op := range in.Operands(ops) {
+					if op != nil && *op != nil && count[*op] {
+						count[v] = true
+						changed = true
+						break
+					}
+				}
+			}
+		}
+	}
+	for f := 0; f < st.NumFields(); f++ {
+		bt, ok := st.Field(f).Type().Underlying().(*types.Basic)
+		if !ok || bt.Info()&(types.IsInteger|types.IsFloat) == 0 {
+			continue
+		}
+		k := key(rule, c.M.Key(step), "the sum kept in field "+st.Field(f).Name()+" takes the parsed counts in")
+		found := ""
+		for _, b := range step.Blocks {
+			for _, in := range b.Instrs {
+				store, ok := in.(*ssa.Store)
+				if !ok {
+					continue
+				}
+				fa, ok := store.Addr.(*ssa.FieldAddr)
+				if !ok || fa.Field != f || structOf(fa.X.Type()) == nil || structOf(fa.X.Type()).Obj() != named.Obj() || !count[store.Val] {
+					continue
+				}
+				// ... and from the value the field held
+				if derivedFrom(store.Val, func(v ssa.Value) bool {
+					ld, ok := v.(*ssa.UnOp)
+					return ok && ld.Op == token.MUL && sameAddr(ld.X, fa)
+				}) {
+					found = c.M.InstrPos(store)
+				}
+			}
+		}
+		if found != "" {
+			c.R.Ok(rule, k, found, "a parsed count is added to the sum", "a store into the field is computed from a parsed count and from the value the field held (sums kept in a struct: decided per field, not per way out)")
+		} else {
+			c.R.Bad(rule, k, c.M.Pos(step.Pos()), "no parsed count is ever added to this sum",
+				"no store into the field is computed from both a parsed count and the value the field held: the sum that is returned leaves the counts out")
+		}
+	}
+}
+
+// sumAllWays: the ways out of one part of the step (separate results for the sums and the flag) that are taken after a
+// count was parsed, with what each returns.
+func (c *Ctx) sumAllWays(rule string, step *ssa.Function) (sumAllPart, bool) {
 	ei := core.ErrorResultIndex(step.Signature)
 	rets := core.ReturnsOf(step)
 	// roles: result position -> the parameter an early way out hands back there
@@ -449,7 +705,7 @@ func (c *Ctx) ruleSumAll(rule string) {
 	}
 	if intIdx < 0 || floatIdx < 0 || flagIdx < 0 {
 		c.R.Unresolved(rule, "the integer sum, float sum and flag of "+step.Name()+" (results that an early way out hands back from a parameter of the same type)")
-		return
+		return sumAllPart{}, false
 	}
 	taint := func(src func(ssa.Value) bool) map[ssa.Value]bool {
 		t := map[ssa.Value]bool{}
@@ -547,12 +803,7 @@ func (c *Ctx) ruleSumAll(rule string) {
 			}
 		}
 	}
-	type way struct {
-		r                         core.Ret
-		mayInt, mayFloat, wasInt  bool
-		intOK, floatOK, floatSeed bool
-	}
-	var ways []way
+	var ways []sumAllWay
 	for _, r := range rets {
 		if c.M.RetNonNil(r, ei) {
 			continue
@@ -566,7 +817,7 @@ func (c *Ctx) ruleSumAll(rule string) {
 		if !after {
 			continue
 		}
-		w := way{r: r, mayInt: true, mayFloat: true, wasInt: true}
+		w := sumAllWay{r: r, mayInt: true, mayFloat: true, wasInt: true}
 		for _, cond := range r.Conds() {
 			if cond.V == ssa.Value(role[flagIdx]) && cond.True {
 				w.wasInt = false
@@ -587,18 +838,15 @@ func (c *Ctx) ruleSumAll(rule string) {
 		w.intOK = fromCount[iv] && fromInt[iv]
 		w.floatOK = fromCount[fv] && fromFloat[fv]
 		w.floatSeed = fromCount[fv] && fromInt[fv]
+		w.floatCount, w.floatPrev = fromCount[fv], fromFloat[fv]
 		ways = append(ways, w)
 	}
-	if len(ways) == 0 {
-		c.R.Unresolved(rule, "ways out of "+step.Name()+" that are taken after a count was parsed")
-		return
-	}
-	tracked := true // the float sum is kept up to date in integer mode
-	for _, w := range ways {
-		if w.mayInt && !w.floatOK {
-			tracked = false
-		}
-	}
+	return sumAllPart{step: step, ways: ways, combines: combines}, true
+}
+
+// sumAllDecide: clauses (i) and (ii) for the ways out of one part.
+func (c *Ctx) sumAllDecide(rule string, part sumAllPart, tracked bool) {
+	step, ways, combines := part.step, part.ways, part.combines
 	n := 0
 	for _, w := range ways {
 		n++
@@ -611,7 +859,7 @@ func (c *Ctx) ruleSumAll(rule string) {
 		case w.mayInt && !w.intOK:
 			c.R.Bad(rule, k, pos, "a count is left out of the integer sum",
 				"the way out can return with the flag false (the integer sum is the result), but the integer sum it returns is not computed from both the parsed count and the sum received: the parser returns a wrong number")
-		case w.mayFloat && !(fromCount[w.r.Val(floatIdx)] && (fromFloat[w.r.Val(floatIdx)] || w.floatSeed)):
+		case w.mayFloat && !(w.floatCount && (w.floatPrev || w.floatSeed)):
 			c.R.Bad(rule, k, pos, "a count is left out of the float sum",
 				"the way out can return with the flag true (the float sum is the result), but the float sum it returns is not computed from both the parsed count and a sum received: the parser returns a wrong number")
 		case w.mayFloat && w.wasInt && !tracked && !w.floatSeed && !combines:
@@ -902,6 +1150,17 @@ func (c *Ctx) sliceHoldsFromTable(s ssa.Value, fromTable func(ssa.Value, int) bo
 				}
 			}
 		case *ssa.Call:
+			// a helper of the module that hands out such a slice (the sorted keys of the table)
+			if callee := core.StaticBody(&x.Call); callee != nil && callee.Pkg != nil && c.M.IsRepoPkg(callee.Pkg.Pkg) && d < 4 {
+				for _, r := range core.ReturnInstrs(callee) {
+					for _, res := range r.Results {
+						if _, isSlice := res.Type().Underlying().(*types.Slice); isSlice && rec(res, d+2) {
+							return true
+						}
+					}
+				}
+				return false
+			}
 			if bi, ok := x.Call.Value.(*ssa.Builtin); ok && bi.Name() == "append" {
 				if rec(x.Call.Args[0], d+1) {
 					return true
@@ -923,6 +1182,19 @@ func (c *Ctx) sliceHoldsFromTable(s ssa.Value, fromTable func(ssa.Value, int) bo
 			}
 		case *ssa.Slice:
 			return rec(x.X, d+1)
+		case *ssa.MakeSlice:
+			// make([]K, n) filled by index
+			if x.Referrers() != nil {
+				for _, r := range *x.Referrers() {
+					if ia, ok := r.(*ssa.IndexAddr); ok && ia.Referrers() != nil {
+						for _, r2 := range *ia.Referrers() {
+							if st, ok := r2.(*ssa.Store); ok && st.Addr == ssa.Value(ia) && fromTable(st.Val, d+1) {
+								return true
+							}
+						}
+					}
+				}
+			}
 		case *ssa.UnOp:
 			if al, ok := x.X.(*ssa.Alloc); ok && al.Referrers() != nil {
 				for _, r := range *al.Referrers() {
@@ -935,4 +1207,650 @@ func (c *Ctx) sliceHoldsFromTable(s ssa.Value, fromTable func(ssa.Value, int) bo
 		return false
 	}
 	return rec(s, d)
+}
+
+// ---------- R-DECODEFIRST (C08): no message of the peer is dropped before its payload was decoded ----------
+//
+// The read loop hands every message to a handler of the client together with its envelope (type, run ID, raw payload).
+// Decoding the payload (with unknown fields refused) is the integrity check of the message: a handler that can return
+// without it lets a message through whose type byte was damaged - a work-done message that arrives as a signal is
+// "a signal nobody listens to", its run never gets its result and its Execute never returns. In every method of the
+// client that is handed the envelope (a struct with a cbor.RawMessage field), every path to a return passes the
+// decoding of that field (an Unmarshal call that is handed the field), directly or in a callee that is handed the
+// envelope or the field and decodes it on all its paths.
+func (c *Ctx) ruleDecodeFirst(rule string) {
+	ro := c.roles()
+	if !ro.ok {
+		return
+	}
+	isRaw := func(t types.Type) bool { return isNamed(t, "github.com/fxamacker/cbor/v2", "RawMessage") }
+	envelopeField := func(t types.Type) int {
+		if p, ok := t.Underlying().(*types.Pointer); ok {
+			t = p.Elem()
+		}
+		st, ok := t.Underlying().(*types.Struct)
+		if !ok {
+			return -1
+		}
+		for i := 0; i < st.NumFields(); i++ {
+			if isRaw(st.Field(i).Type()) {
+				return i
+			}
+		}
+		return -1
+	}
+	var decodesAll func(fn *ssa.Function, prm *ssa.Parameter, depth int) bool
+	decodesAll = func(fn *ssa.Function, prm *ssa.Parameter, depth int) bool {
+		if depth > 3 || len(fn.Blocks) == 0 {
+			return false
+		}
+		fieldIdx := envelopeField(prm.Type())
+		// the raw payload: the parameter itself, or its field
+		payload := func(v ssa.Value) bool {
+			return derivedFrom(v, func(x ssa.Value) bool {
+				if x == ssa.Value(prm) && isRaw(prm.Type()) {
+					return true
+				}
+				switch y := x.(type) {
+				case *ssa.Field:
+					return y.Field == fieldIdx && derivedFrom(y.X, func(z ssa.Value) bool { return z == ssa.Value(prm) })
+				case *ssa.FieldAddr:
+					return y.Field == fieldIdx && derivedFrom(y.X, func(z ssa.Value) bool { return z == ssa.Value(prm) })
+				}
+				return false
+			})
+		}
+		envelope := func(v ssa.Value) bool {
+			return derivedFrom(v, func(z ssa.Value) bool { return z == ssa.Value(prm) })
+		}
+		return everyPathSat(fn.Blocks[0], func(_ *ssa.BasicBlock, in ssa.Instruction) bool {
+			call, ok := in.(*ssa.Call)
+			if !ok {
+				return false
+			}
+			name := core.StaticCalleeName(&call.Call)
+			if call.Call.IsInvoke() {
+				name = call.Call.Method.Name()
+			}
+			if strings.HasSuffix(name, "Unmarshal") {
+				for _, a := range call.Call.Args {
+					if payload(a) {
+						return true
+					}
+				}
+				return false
+			}
+			if callee := core.StaticBody(&call.Call); callee != nil && callee.Pkg == fn.Pkg {
+				for i, a := range call.Call.Args {
+					if i < len(callee.Params) && (envelopeField(callee.Params[i].Type()) >= 0 && envelope(a) || isRaw(callee.Params[i].Type()) && payload(a)) {
+						if decodesAll(callee, callee.Params[i], depth+1) {
+							return true
+						}
+					}
+				}
+			}
+			return false
+		})
+	}
+	n := 0
+	for _, fn := range c.M.SortedFuncs(c.scopePkg("atp")) {
+		if fn.Parent() != nil || !c.methodOrClosureOf(fn, ro.clientT) {
+			continue
+		}
+		for _, prm := range fn.Params[1:] {
+			if envelopeField(prm.Type()) < 0 {
+				continue
+			}
+			n++
+			k := key(rule, c.M.Key(fn), "the payload of the message is decoded on every path")
+			if decodesAll(fn, prm, 0) {
+				c.R.Ok(rule, k, c.M.Pos(fn.Pos()), "handler of a message of the peer", "every path to a return passes an Unmarshal of the envelope's raw payload (here, or in a callee that is handed the envelope)")
+			} else {
+				c.R.Bad(rule, k, c.M.Pos(fn.Pos()), "a message can be dropped before its payload was decoded",
+					"some path returns without having decoded the payload: a message whose type was damaged on the way (a result that arrives as a signal) passes for a message that needs no attention, the run it belongs to never gets its result, and its Execute never returns")
+			}
+		}
+	}
+	if n == 0 {
+		c.R.Unresolved(rule, "methods of the ATP client that are handed the envelope of a message (a struct with a cbor.RawMessage field)")
+	}
+}
+
+// ---------- R-EMPTYROW (C09): no row of the meta-schema drops a value that differs from "not set" ----------
+//
+// A property marked TreatEmptyAsDefaultValue is left out of the serialized form when its value is the zero value -
+// after a pointer was followed. For a struct field that is a pointer, "not set" is the nil pointer, and a pointer to the
+// zero value (a default value that is the empty string, a bound of 0) is a value like any other: a row of the
+// meta-schema with that mark would drop it from the description, and the schema rebuilt from the description would lack
+// it. Every row that the package initialiser files, under a constant name, into the property table of a struct-mapped
+// object of the meta-schema and whose struct field (found by its json tag) is a pointer is an obligation: the property
+// is not the result of TreatEmptyAsDefaultValue (directly, or where a shared row is built).
+func (c *Ctx) ruleEmptyRow(rule string) {
+	init := c.M.FuncByKey["schema.init"]
+	if init == nil {
+		c.R.Unresolved(rule, "the package initialiser of package schema")
+		return
+	}
+	// the property tables: maps handed to NewStructMappedObjectSchema[T]
+	tables := map[ssa.Value]types.Type{}
+	for _, b := range init.Blocks {
+		for _, in := range b.Instrs {
+			call, ok := in.(*ssa.Call)
+			if !ok {
+				continue
+			}
+			callee := call.Call.StaticCallee()
+			if callee == nil || len(callee.TypeArgs()) != 1 || len(call.Call.Args) != 2 {
+				continue
+			}
+			origin := callee
+			if o := callee.Origin(); o != nil {
+				origin = o
+			}
+			if origin.Name() != "NewStructMappedObjectSchema" {
+				continue
+			}
+			tables[call.Call.Args[1]] = callee.TypeArgs()[0]
+		}
+	}
+	marked := func(v ssa.Value) bool {
+		return derivedFrom(c.resolveInit(v, 0), func(x ssa.Value) bool {
+			x = c.resolveInit(x, 0)
+			call, ok := x.(*ssa.Call)
+			if !ok {
+				return false
+			}
+			callee := core.StaticBody(&call.Call)
+			if callee == nil {
+				return false
+			}
+			// the builder, or any method of the property that sets the flag
+			if callee.Name() == "TreatEmptyAsDefaultValue" {
+				return true
+			}
+			for _, cb := range callee.Blocks {
+				for _, cin := range cb.Instrs {
+					if st, ok := cin.(*ssa.Store); ok {
+						if fa, ok := st.Addr.(*ssa.FieldAddr); ok && fieldName(fa.X.Type(), fa.Field) == "emptyIsDefault" {
+							if k, isConst := st.Val.(*ssa.Const); !isConst || k.Value == nil || k.Value.String() != "false" {
+								return len(callee.Params) > 0 && isNamedPtr(callee.Params[0].Type(), "PropertySchema")
+							}
+						}
+					}
+				}
+			}
+			return false
+		})
+	}
+	n := 0
+	for _, b := range init.Blocks {
+		for _, in := range b.Instrs {
+			mu, ok := in.(*ssa.MapUpdate)
+			if !ok {
+				continue
+			}
+			t, isTable := tables[mu.Map]
+			name, isConst := core.ConstString(mu.Key)
+			if !isTable || !isConst {
+				continue
+			}
+			field := jsonTagsOf(t)[name]
+			if field == nil {
+				continue
+			}
+			if _, isPtr := field.Type().Underlying().(*types.Pointer); !isPtr {
+				continue
+			}
+			n++
+			owner := typeStr(t)
+			k := key(rule, "schema.init", "row "+name+" of "+owner+" (a pointer field) is not left out when it points to the zero value")
+			if marked(mu.Value) {
+				c.R.Bad(rule, k, c.M.InstrPos(mu), "a row of the meta-schema for a pointer field is marked TreatEmptyAsDefaultValue",
+					"the field "+field.Name()+" is a pointer: nil is \"not set\", a pointer to the zero value is a value; the mark drops that value from the description, and the schema rebuilt from it behaves differently (a default value that is the empty string disappears)")
+			} else {
+				c.R.Ok(rule, k, c.M.InstrPos(mu), "row of the meta-schema for a pointer field", "the property filed under this name is not the result of TreatEmptyAsDefaultValue")
+			}
+		}
+	}
+	if n == 0 {
+		c.R.Unresolved(rule, "rows of the meta-schema whose struct field is a pointer")
+	}
+}
+
+// ---------- R-KEEPKEY (C09): a table that is copied for the description keeps its keys ----------
+//
+// The callable forms of a schema (steps with handlers, signals) are described through plain copies: ToStepSchema and
+// its likes build a new map from a table of the receiver, entry by entry. The plugin dispatches by the keys of its own
+// table (CallSignal looks the handler up under the key), so the copy must file every entry under the key it came
+// from: where a function of package schema ranges over a map and stores something computed from the entry's value into
+// another map that it made, the key of the store is the key of the entry.
+func (c *Ctx) ruleKeepKey(rule string) {
+	n := 0
+	for _, fn := range c.M.SortedFuncs(c.scopePkg("schema")) {
+		idx := 0
+		for _, b := range fn.Blocks {
+			for _, in := range b.Instrs {
+				mu, ok := in.(*ssa.MapUpdate)
+				if !ok {
+					continue
+				}
+				if _, made := mu.Map.(*ssa.MakeMap); !made {
+					continue
+				}
+				// the entry the value is computed from
+				var next *ssa.Next
+				derivedFrom(mu.Value, func(x ssa.Value) bool {
+					ex, ok := x.(*ssa.Extract)
+					if !ok || ex.Index != 2 {
+						return false
+					}
+					nx, ok := ex.Tuple.(*ssa.Next)
+					if !ok || nx.IsString {
+						return false
+					}
+					if rg, ok := nx.Iter.(*ssa.Range); ok {
+						if _, isMap := rg.X.Type().Underlying().(*types.Map); isMap && rg.X != mu.Map {
+							next = nx
+							return true
+						}
+					}
+					return false
+				})
+				if next == nil {
+					continue
+				}
+				rg := next.Iter.(*ssa.Range)
+				// only copies of a table of the receiver (a field), key types identical
+				if !types.Identical(rg.X.Type().Underlying().(*types.Map).Key(), mu.Map.Type().Underlying().(*types.Map).Key()) {
+					continue
+				}
+				if !strings.Contains(c.M.ValPath(rg.X), ".") {
+					continue
+				}
+				idx++
+				n++
+				k := key(rule, c.M.Key(fn), sprintf("copy #%d of the entries of %s keeps their keys", idx, c.M.ValPath(rg.X)))
+				sameKey := false
+				if ex, ok := mu.Key.(*ssa.Extract); ok && ex.Index == 1 && ex.Tuple == ssa.Value(next) {
+					sameKey = true
+				}
+				if sameKey {
+					c.R.Ok(rule, k, c.M.InstrPos(mu), "entry-by-entry copy of a table", "the entry is stored under the key the range handed out for it")
+				} else {
+					c.R.Bad(rule, k, c.M.InstrPos(mu), "an entry of the table is filed under another key in the copy",
+						"the copy (the description of a step, of a schema) names the entry differently from the table the plugin dispatches by: a handler whose key is not its ID is announced under a name that the plugin refuses, two handlers with one ID collapse into one")
+				}
+			}
+		}
+	}
+	if n == 0 {
+		c.R.Unresolved(rule, "entry-by-entry copies of a table of the receiver into a new map (ToStepSchema and its likes)")
+	}
+}
+
+// ---------- R-ERRIDENT (C18): "the last result is error" is decided by identity ----------
+//
+// The constructors accept a handler exactly when its result types agree with the declared output and the error flag:
+// the last result must be the interface type error itself - Call tests it with IsNil, which panics on a struct or an
+// integer, and a declared error result is what the caller is promised. Implements / AssignableTo / ConvertibleTo with
+// the error type accept every concrete type that has an Error method. Every use of the package-level reflect.Type of
+// error (a variable initialised by reflect.TypeOf((*error)(nil)).Elem()) in package schema is an operand of == or !=.
+func (c *Ctx) ruleErrIdent(rule string) {
+	init := c.M.FuncByKey["schema.init"]
+	if init == nil {
+		c.R.Unresolved(rule, "the package initialiser of package schema")
+		return
+	}
+	// the globals that hold the reflect.Type of error: initialised from TypeOf(x).Elem() where x is a nil *error
+	var globals []*ssa.Global
+	for _, b := range init.Blocks {
+		for _, in := range b.Instrs {
+			st, ok := in.(*ssa.Store)
+			if !ok {
+				continue
+			}
+			g, ok := st.Addr.(*ssa.Global)
+			if !ok {
+				continue
+			}
+			elem, ok := st.Val.(*ssa.Call)
+			if !ok || !elem.Call.IsInvoke() || elem.Call.Method.Name() != "Elem" {
+				continue
+			}
+			tof, ok := elem.Call.Value.(*ssa.Call)
+			if !ok || core.StaticCalleeName(&tof.Call) != "reflect.TypeOf" || len(tof.Call.Args) != 1 {
+				continue
+			}
+			arg := tof.Call.Args[0]
+			if mi, ok := arg.(*ssa.MakeInterface); ok {
+				arg = mi.X
+			}
+			if pt, ok := arg.Type().(*types.Pointer); ok && core.IsErrorType(pt.Elem()) {
+				globals = append(globals, g)
+			}
+		}
+	}
+	if len(globals) == 0 {
+		c.R.Unresolved(rule, "a package-level reflect.Type of the interface type error in package schema")
+		return
+	}
+	n := 0
+	for _, fn := range c.M.SortedFuncs(c.scopePkg("schema")) {
+		idx := 0
+		for _, b := range fn.Blocks {
+			for _, in := range b.Instrs {
+				ld, ok := in.(*ssa.UnOp)
+				if !ok || ld.Op != token.MUL {
+					continue
+				}
+				isErrT := false
+				for _, g := range globals {
+					if ld.X == ssa.Value(g) {
+						isErrT = true
+					}
+				}
+				if !isErrT || ld.Referrers() == nil {
+					continue
+				}
+				for _, r := range *ld.Referrers() {
+					if _, isDebug := r.(*ssa.DebugRef); isDebug {
+						continue
+					}
+					idx++
+					n++
+					k := key(rule, c.M.Key(fn), sprintf("use #%d of the reflect.Type of error is an identity comparison", idx))
+					if bin, ok := r.(*ssa.BinOp); ok && (bin.Op == token.EQL || bin.Op == token.NEQ) {
+						c.R.Ok(rule, k, c.M.InstrPos(r), "test for the error result of a handler", "compared with == / != : only the interface type error itself passes")
+						continue
+					}
+					what := "used other than in a comparison"
+					if call, ok := r.(*ssa.Call); ok && call.Call.IsInvoke() {
+						what = "handed to " + call.Call.Method.Name()
+					}
+					c.R.Bad(rule, k, c.M.InstrPos(r), "the reflect.Type of error is "+what,
+						"Implements / AssignableTo / ConvertibleTo accept every concrete type with an Error method as \"the error result\": the constructors accept handlers whose last result is a struct or an integer, and Call's IsNil panics on them; a declared error result must be the interface type error itself")
+				}
+			}
+		}
+	}
+	if n < 2 {
+		c.R.Unresolved(rule, sprintf("uses of the reflect.Type of error in package schema (%d found, at least 2 expected: the typed and the dynamic constructor)", n))
+	}
+}
+
+// ---------- R-NONFATAL (C05, C08): an error report that ends nothing does not end the read loop ----------
+//
+// An error message of the peer carries two flags, step-fatal and server-fatal; with both off it reports something that
+// ended neither a run nor the session (a refused signal, a failed signal handler - the peer sends such reports for runs
+// that are over, too, because the caller's signals are forwarded for as long as the caller sends them). The handler of
+// error messages (the method of the client that decodes the payload into the struct with the two flags) gives up the
+// stream - returns true to the read loop - only where one of the flags was found set or the payload did not decode.
+// Otherwise a correct peer's harmless report fails every run that is waiting.
+func (c *Ctx) ruleNonFatal(rule string) {
+	ro := c.roles()
+	if !ro.ok {
+		return
+	}
+	n := 0
+	for _, fn := range c.M.SortedFuncs(c.scopePkg("atp")) {
+		if fn.Parent() != nil || !c.methodOrClosureOf(fn, ro.clientT) || fn.Signature.Results().Len() != 1 {
+			continue
+		}
+		if bt, ok := fn.Signature.Results().At(0).Type().Underlying().(*types.Basic); !ok || bt.Kind() != types.Bool {
+			continue
+		}
+		// decodes into a struct with the two flags?
+		var decode *ssa.Call
+		var msg ssa.Value
+		for _, b := range fn.Blocks {
+			for _, in := range b.Instrs {
+				call, ok := in.(*ssa.Call)
+				if !ok {
+					continue
+				}
+				name := core.StaticCalleeName(&call.Call)
+				if call.Call.IsInvoke() {
+					name = call.Call.Method.Name()
+				}
+				if !strings.HasSuffix(name, "Unmarshal") || len(call.Call.Args) == 0 {
+					continue
+				}
+				target := call.Call.Args[len(call.Call.Args)-1]
+				if mi, ok := target.(*ssa.MakeInterface); ok {
+					target = mi.X
+				}
+				tt := target.Type()
+				if pt, ok := tt.Underlying().(*types.Pointer); ok {
+					tt = pt.Elem()
+				}
+				if st, ok := tt.Underlying().(*types.Struct); ok {
+					has := map[string]bool{}
+					for i := 0; i < st.NumFields(); i++ {
+						has[st.Field(i).Name()] = true
+					}
+					if has["StepFatal"] && has["ServerFatal"] {
+						decode, msg = call, target
+					}
+				}
+			}
+		}
+		if decode == nil {
+			continue
+		}
+		est := func(cond core.Cond) bool {
+			if cond.Via != nil || cond.Entry {
+				return false
+			}
+			// a flag found set
+			if ld, ok := cond.V.(*ssa.UnOp); ok && ld.Op == token.MUL && cond.True {
+				if fa, ok := ld.X.(*ssa.FieldAddr); ok && fa.X == msg {
+					if name := fieldName(fa.X.Type(), fa.Field); name == "StepFatal" || name == "ServerFatal" {
+						return true
+					}
+				}
+			}
+			// the payload did not decode
+			if x, neq, ok := core.NilCmp(cond.V); ok && neq == cond.True && core.Unwrap(x) == ssa.Value(decode) {
+				return true
+			}
+			return false
+		}
+		hold := core.MustHold(fn, est)
+		idx := 0
+		for _, r := range core.ReturnsOf(fn) {
+			k0, isConst := r.Val(0).(*ssa.Const)
+			if isConst && k0.Value != nil && k0.Value.String() == "false" {
+				continue
+			}
+			idx++
+			n++
+			k := key(rule, c.M.Key(fn), sprintf("way out #%d that stops the read loop is taken only for a fatal error or an undecodable payload", idx))
+			pos := c.M.InstrPos(r.Return)
+			if r.Merged() {
+				pos = c.M.InstrPos(r.Block().Instrs[len(r.Block().Instrs)-1])
+			}
+			if hold[r.Key()] {
+				c.R.Ok(rule, k, pos, "the read loop is stopped on an error message", "reached only where the step-fatal or the server-fatal flag of the decoded message was found set, or where decoding failed")
+			} else {
+				c.R.Bad(rule, k, pos, "an error message with neither flag set can stop the read loop",
+					"a report that ends nothing (a refused signal of a run that is over already) makes the client give up the stream: every run that is waiting fails although the peer did everything right")
+			}
+		}
+	}
+	if n == 0 {
+		c.R.Unresolved(rule, "the handler of error messages (a bool method of the client that decodes into a struct with StepFatal and ServerFatal)")
+	}
+}
+
+// ---------- R-FREEFIRST (C05): a run ID that is checked for being in use is given back before the result goes out ----------
+//
+// The server keeps a table of the runs it was told of. Where a method of the session both looks an ID up in such a
+// table and inserts it (check-then-insert: "is this ID in use?"), the table decides whether a work start is taken, and
+// the moment an entry is removed matters: the client hands a result to its caller as soon as it has read it, and the
+// caller may start the next run under the same ID at once. An entry that is removed only after the run's terminal
+// message was written can still be there when that next work start is read - the run is refused although its
+// predecessor is over. Every delete on such a table must therefore not come after a call that can write a terminal
+// message (an Encode on the session's encoder, a send on the session's error channel): not later in the same function,
+// and not in a deferred function of a function that makes such a call.
+func (c *Ctx) ruleFreeFirst(rule string) {
+	ro := c.roles()
+	if !ro.ok || ro.serverT == nil {
+		return
+	}
+	st := fieldsOf(ro.serverT)
+	tableOf := func(v ssa.Value) string {
+		ld, ok := v.(*ssa.UnOp)
+		if !ok || ld.Op != token.MUL {
+			return ""
+		}
+		fa, ok := ld.X.(*ssa.FieldAddr)
+		if !ok || structOf(fa.X.Type()) == nil || structOf(fa.X.Type()).Obj() != ro.serverT.Obj() {
+			return ""
+		}
+		if _, isMap := st.Field(fa.Field).Type().Underlying().(*types.Map); !isMap {
+			return ""
+		}
+		return st.Field(fa.Field).Name()
+	}
+	// tables with a check-then-insert
+	gate := map[string]string{}
+	for _, fn := range c.M.SortedFuncs(c.scopePkg("atp")) {
+		if !c.methodOrClosureOf(fn, ro.serverT) {
+			continue
+		}
+		looked, inserted := map[string]bool{}, map[string]bool{}
+		for _, b := range fn.Blocks {
+			for _, in := range b.Instrs {
+				switch x := in.(type) {
+				case *ssa.Lookup:
+					if x.CommaOk {
+						looked[tableOf(x.X)] = true
+					}
+				case *ssa.MapUpdate:
+					inserted[tableOf(x.Map)] = true
+				}
+			}
+		}
+		for t := range looked {
+			if t != "" && inserted[t] {
+				gate[t] = c.M.Key(fn)
+			}
+		}
+	}
+	// a call that can write a terminal message
+	writes := map[*ssa.Function]bool{}
+	for _, fn := range c.M.Funcs {
+		for _, b := range fn.Blocks {
+			for _, in := range b.Instrs {
+				switch x := in.(type) {
+				case *ssa.Send:
+					if ld, ok := x.Chan.(*ssa.UnOp); ok {
+						if fa, ok := ld.X.(*ssa.FieldAddr); ok && structOf(fa.X.Type()) != nil && structOf(fa.X.Type()).Obj() == ro.serverT.Obj() {
+							writes[fn] = true
+						}
+					}
+				case *ssa.Call:
+					if strings.HasSuffix(core.StaticCalleeName(&x.Call), "cbor/v2.Encoder).Encode") {
+						writes[fn] = true
+					}
+				}
+			}
+		}
+	}
+	canWrite := func(ci ssa.CallInstruction) bool {
+		for _, callee := range c.M.Callees(ci.Common()) {
+			for f := range c.M.Reachable([]*ssa.Function{callee}, nil) {
+				if writes[f] {
+					return true
+				}
+			}
+		}
+		return false
+	}
+	n := 0
+	for _, fn := range c.M.SortedFuncs(c.scopePkg("atp")) {
+		if !c.methodOrClosureOf(fn, ro.serverT) {
+			continue
+		}
+		idx := 0
+		for _, b := range fn.Blocks {
+			for _, in := range b.Instrs {
+				ci, ok := in.(ssa.CallInstruction)
+				if !ok {
+					continue
+				}
+				bi, isBuiltin := ci.Common().Value.(*ssa.Builtin)
+				if !isBuiltin || bi.Name() != "delete" {
+					continue
+				}
+				t := tableOf(ci.Common().Args[0])
+				if t == "" || gate[t] == "" {
+					continue
+				}
+				idx++
+				n++
+				k := key(rule, c.M.Key(fn), sprintf("delete #%d on %s does not come after the run's terminal message", idx, t))
+				late := ""
+				// earlier in the same function
+				for _, b2 := range fn.Blocks {
+					for _, in2 := range b2.Instrs {
+						ci2, ok := in2.(ssa.CallInstruction)
+						if !ok || in2 == in {
+							continue
+						}
+						if _, isGo := in2.(*ssa.Go); isGo {
+							continue
+						}
+						if _, isDefer := in2.(*ssa.Defer); isDefer {
+							continue
+						}
+						before := (b2 == b && instrBefore(in2, in)) || (b2 != b && blockReaches(b2, b, nil))
+						if before && canWrite(ci2) {
+							late = c.M.InstrPos(in2)
+						}
+					}
+				}
+				// in a deferred function: after everything its parent does
+				if fn.Parent() != nil {
+					deferred := false
+					for _, pb := range fn.Parent().Blocks {
+						for _, pin := range pb.Instrs {
+							if d, ok := pin.(*ssa.Defer); ok {
+								if mc, ok := d.Call.Value.(*ssa.MakeClosure); ok && mc.Fn == ssa.Value(fn) {
+									deferred = true
+								}
+							}
+						}
+					}
+					if deferred {
+						for _, pb := range fn.Parent().Blocks {
+							for _, pin := range pb.Instrs {
+								if ci2, ok := pin.(*ssa.Call); ok && canWrite(ci2) {
+									late = c.M.InstrPos(pin)
+								}
+							}
+						}
+					}
+				}
+				if late == "" {
+					c.R.Ok(rule, k, c.M.InstrPos(in), "a run ID is given back", "no call that can write a terminal message of the session precedes the delete")
+				} else {
+					c.R.Bad(rule, k, c.M.InstrPos(in), "the run ID is given back only after the run's result has gone out",
+						"the table "+t+" decides whether a work start is taken ("+gate[t]+" looks the ID up and inserts it), and this delete comes after "+late+", which can write the terminal message: a caller that re-uses the ID as soon as it has its result can be refused although its run is over")
+				}
+			}
+		}
+	}
+	// no check-then-insert table, or no delete on one: nothing to decide - the rule states what it looked at
+	k := key(rule, "atp", "tables of the session that decide whether a work start is taken")
+	var names []string
+	for t := range gate {
+		names = append(names, t)
+	}
+	sort.Strings(names)
+	if len(names) == 0 {
+		c.R.Ok(rule, k, "-", "check-then-insert on a table of the session", "no method of the session both looks a key up in a map field and inserts into it: no table decides whether a work start is taken, and the removal of entries has no bearing on it")
+	} else {
+		c.R.Ok(rule, k, "-", "check-then-insert on a table of the session", sprintf("%s: %d removals examined", strings.Join(names, ", "), n))
+	}
 }
